@@ -3920,7 +3920,10 @@ class Client:
                 return self.reconnect()
 
         if result == 0:
-            self._state = _ConnectionState.MQTT_CS_CONNECTED
+            if self._state != _ConnectionState.MQTT_CS_DISCONNECTING:
+                # disconnect() was called before the CONNACK arrived: the queued DISCONNECT
+                # still ends this connection, do not report it as connected
+                self._state = _ConnectionState.MQTT_CS_CONNECTED
             self._reconnect_delay = None
 
         if self._protocol == MQTTv5:
